@@ -357,10 +357,7 @@ func (ex *Exec) callMerged(s *State, fr *Frame, fn *ssa.Function, args, bindings
 		for _, h := range g.hashes {
 			if !seen[h.App.ID] {
 				seen[h.App.ID] = true
-				ns.hashes = append(ns.hashes, h)
-				for _, ax := range ex.hashAxioms(h) {
-					ns.addPC(ax)
-				}
+				ex.addHashApp(ns, h)
 			}
 		}
 		ns.addPC(ex.tt.Or(g.conds...))
